@@ -285,7 +285,13 @@ func Generate(r *lib.Run, level int, modes []int, nCfg int) {
 				g := NewGen(lib.NewRand(j.seed), j.cfg, level)
 				ops := g.History(j.depth)
 				args := append(j.cfg.Tokens(), ops...)
-				r.Do("hist", args...)
+				obs := r.Do("hist", args...)
+				steps := strings.Fields(strings.SplitN(obs, " | ", 2)[0])
+				for i, o := range ops {
+					if i < len(steps) && (o[0] == 'D' || o[0] == 'R') {
+						r.Stat("class.reply."+o[:1]+"."+steps[i][:1], 1) // D.O offer, D.- exhausted; R.A ack, R.N nak, R.- silence
+					}
+				}
 				r.Stat("class.depth."+bucket(j.depth), 1)
 				for _, o := range ops {
 					r.Stat("class.op."+o[:1], 1)
@@ -338,5 +344,59 @@ func Corpus(r *lib.Run) {
 				r.Stat("class.corpus", 1)
 			}
 		}
+	}
+}
+
+// Exhaustive enumerates every history up to the given depth over a small alphabet of ops in the
+// /29+/30 configuration (pool 10.0.0.2-.5; first offers are .2 then .3), two clients: the
+// interleavings between OFFER and REQUEST, requests for the other client's address, capture,
+// expiry and decline.  Thorough tier only (validates the model; the theorems cover every depth).
+func Exhaustive(r *lib.Run, mode int, depth int, nTokens int) {
+	c := StdCfg(1, mode)
+	m1, m2 := net.HardwareAddr{2, 0, 0, 0, 0, 1}, net.HardwareAddr{2, 0, 0, 0, 0, 2}
+	a2, a3 := uint32(0x0a000002), uint32(0x0a000003)
+	toks := []string{
+		Msg{Kind: 'D', Chaddr: m1, Xid: 0x11111111}.Token(),
+		Msg{Kind: 'D', Chaddr: m2, Xid: 0x22222222, Req: &a2}.Token(),
+		Msg{Kind: 'R', Chaddr: m1, Xid: 0x11111111, Req: &a2, Sid: &c.HostIP}.Token(),
+		Msg{Kind: 'R', Chaddr: m2, Xid: 0x22222222, Req: &a2, Sid: &c.HostIP}.Token(),
+		"T,15000",
+		"C," + hxmac(m1),
+		Msg{Kind: 'R', Chaddr: m1, Xid: 0x11111111, Ciaddr: a2}.Token(),
+		Msg{Kind: 'D', Chaddr: m2, Xid: 0x22222222}.Token(),
+		Msg{Kind: 'R', Chaddr: m2, Xid: 0x22222222, Req: &a3, Sid: &c.HostIP}.Token(),
+		Msg{Kind: 'X', Chaddr: m1, Xid: 0x11111111, Req: &a2, Sid: &c.HostIP}.Token(),
+	}
+	if nTokens < len(toks) {
+		toks = toks[:nTokens]
+	}
+	jobs := make(chan []string, 64)
+	done := make(chan bool)
+	workers := 12
+	for w := 0; w < workers; w++ {
+		go func() {
+			for ops := range jobs {
+				r.Do("hist", append(c.Tokens(), ops...)...)
+				r.Stat("class.exhaustive", 1)
+			}
+			done <- true
+		}()
+	}
+	var rec func(prefix []string, d int)
+	rec = func(prefix []string, d int) {
+		if len(prefix) > 0 {
+			jobs <- append([]string{}, prefix...)
+		}
+		if d == 0 {
+			return
+		}
+		for _, t := range toks {
+			rec(append(prefix, t), d-1)
+		}
+	}
+	rec(nil, depth)
+	close(jobs)
+	for w := 0; w < workers; w++ {
+		<-done
 	}
 }
